@@ -124,6 +124,7 @@ package sonic
 //@   (forall k :: IN[k] == 1 ==> 0 <= IDX[k] && IDX[k] < len(s.offsetter.tree.data) && 0 <= LEN[k] && LEN[k] <= 1<<46)
 
 //@ func (*SlotSequencer).Size
+//@   requires s.container != nil
 //@   pure
 //@ func (*SlotSequencer).Bytes
 //@   pure
